@@ -10,7 +10,8 @@ def run(tier):
     out = check.Outcome("C08", tier)
     rp = replay.Replay("harness.modes:c08")
     for s in SEMIRINGS:
-        rp.run_lens("semiring_" + s, limit=LIMIT[tier])
+        rp.run_lens("semiring_" + s, cfg="semiring_" + s if tier == "quick" else "semiring_%s_deep" % s, limit=LIMIT[tier])
+    rp.run_lens("mixed_contraction")
     out.add_replay(rp, "termmachine")
     events = rp.events
     jr, n_ok, n_bad, n_undef = judge_events(
